@@ -22,7 +22,13 @@ RULE = ("cases drawn from one seeded stream: state size n in 1..5, sub-measureme
         "(10% exactly rank deficient PSD), noise blocks SPD: half of the cases with equal blocks (then both the reduced and "
         "the full constructor are run) and half with k different blocks (full constructor); output object pre-filled with "
         "unrelated content; non-trivial = k >= 2 or components >= 2 or h non-linear or size mismatch; "
-        "distinct by (n, s, k, comps, h kind, equal blocks, multiple, rank deficient)")
+        "distinct by (n, s, k, comps, h kind, equal blocks, multiple, rank deficient). "
+        "SEQUENCE cases (120 quick / 4000 thorough): ONE SUKFCorrection object per constructor flag and ONE UKFCorrection object are "
+        "driven through 2..4 correct()+getLikelihood() calls; between calls the harness measurement model is re-programmed and the belief "
+        "replaced: nothing / R (same size, other blocks) / y / h / prior / number of components / measurement size (other k) / everything / "
+        "a size that is not a multiple of s; after EVERY call the implementation is compared with the stateless model run on that call's "
+        "inputs and SUKF with UKF (signatures carry step=<t>:<what changed before that call>); all sequence cases are non-trivial, "
+        "distinct by (n, s, change labels, equal blocks, k per call)")
 TRUSTED_BASE = ["Coq 8.16.1 kernel (coqc); no axioms (Print Assumptions: closed under the global context)",
                 "MathComp 1.15 matrix theory",
                 "extraction (ExtrOcamlBasic only) and ocaml/float_ops.ml, ocaml/drv_C05.ml, ocaml/caseio.ml",
@@ -37,10 +43,11 @@ ASSUMPTIONS = ["Eigen's jacobiSvd factor A = U sqrt(s) satisfies A A^T = P for s
                "Eigen inverse()/determinant() behave as matrix inverse/determinant up to rounding (checked against the model's Gauss-Jordan)",
                "linear state and measurement layouts (no circular / quaternion / noise rows): SUKFCorrection sizes its sigma set from dim",
                "0 < measurement_sub_size (meas_size % 0 is undefined behaviour in C++)",
+               "one correct() call depends only on that call's inputs (model is a pure function; checked on sequence cases that reuse one object while R, y, h, belief, sizes change)",
                "the measurement model reports valid measurement, prediction and innovation (the validity-flag prefix is C12's subject)"]
 
 RTOL = 1e-10     # mean / covariance: |a - b| <= RTOL * cond * scale; measured worst 2e-14 * cond * scale over 1200 cases
-COUNTS = {"quick": 300, "thorough": 10000}
+COUNTS = {"quick": (300, 120), "thorough": (10000, 4000)}   # (single-call cases, sequence cases of 2-4 calls)
 
 
 def ut_params(rng, n):
@@ -82,17 +89,103 @@ def blockdiag(blocks):
     return R
 
 
+def gen_h(rng, m, n):
+    return {"hkind": rng.choice([0, 1, 2]), "H": gen.matrix(rng, m, n), "G": gen.matrix(rng, m, n, 0.5), "G2": gen.matrix(rng, m, n, 0.5),
+            "b": gen.matrix(rng, m, 1), "g": gen.matrix(rng, m, 1)}
+
+
+def gen_prior(rng, n, comps):
+    means = gen.matrix(rng, n, 1, 2.0) + gen.matrix(rng, n, comps, rng.choice([0.1, 0.3, 1.0]))
+    covs, cond, rankdef = [], 1.0, 0
+    for i in range(comps):
+        if n >= 2 and rng.random() < 0.1:
+            P = gen.psd(rng, n, n - 1, 10 ** rng.uniform(0, 2)); rankdef = 1
+            cP = 1.0
+        else:
+            P, cP = gen.spd(rng, n, 10 ** rng.uniform(0, 4), lo=10 ** rng.uniform(-2, 0))
+        covs.append(P); cond = max(cond, cP)
+    w = np.array([rng.random() + 0.1 for _ in range(comps)]); w = w / w.sum()
+    return {"comps": comps, "means": means, "covs": covs, "w": w, "condP": cond, "rankdef": rankdef}
+
+
+def gen_noise(rng, s, k, m, mult, equal):
+    """blocks / full matrix; with mult = 0 (size mismatch) an arbitrary SPD m x m matrix and one s x s block"""
+    if mult:
+        if equal:
+            B, _ = gen.spd(rng, s, 10 ** rng.uniform(0, 3), lo=10 ** rng.uniform(-2, 0))
+            blocks = [B] * k
+        else:
+            blocks = [gen.spd(rng, s, 10 ** rng.uniform(0, 3), lo=10 ** rng.uniform(-2, 0))[0] for _ in range(k)]
+        Rfull = blockdiag(blocks)
+    else:
+        blocks = [gen.spd(rng, s, 10 ** rng.uniform(0, 3))[0]]
+        Rfull, _ = gen.spd(rng, m, 10 ** rng.uniform(0, 3))
+    return {"blocks": blocks, "Rfull": Rfull, "condR": float(np.linalg.cond(Rfull))}
+
+
+def gen_y(rng, st):
+    m = st["H"].shape[0]
+    return h_eval(st["hkind"], st["H"], st["G"], st["G2"], st["b"], st["g"], st["means"][:, [0]]) + gen.matrix(rng, m, 1, 0.7)
+
+
+def gen_step(rng, n, s, k, comps, mult, equal):
+    m = k * s if mult else k * s + rng.randint(1, s - 1)
+    st = {"k": k, "m": m, "mult": mult}
+    st.update(gen_h(rng, m, n)); st.update(gen_prior(rng, n, comps)); st.update(gen_noise(rng, s, k, m, mult, equal))
+    st["y"] = gen_y(rng, st)
+    return st
+
+
+def put_step(c, st, suf, with_block):
+    for nm in ("H", "G", "G2", "b", "g", "y", "Rfull"):
+        c.mat(nm + suf, st[nm])
+    if with_block:
+        c.mat("Rblock" + suf, st["blocks"][0])
+    c.mat("means" + suf, st["means"]).mat("covs" + suf, np.hstack(st["covs"])).mat("weights" + suf, st["w"].reshape(-1, 1))
+    c.int("hkind" + suf, st["hkind"])
+
+
+LABELS = ["same", "R", "R", "y", "y", "h", "h", "prior", "prior", "comps", "size", "size", "all", "mismatch"]
+
+
+def next_step(rng, prev, n, s, equal):
+    """the inputs of the next correct() call on the same objects, and what changed"""
+    label = rng.choice(LABELS)
+    if not prev["mult"]:
+        label = "size"                       # after a mismatching call: a fresh, valid measurement size
+    if label == "mismatch" and s < 2:
+        label = "R"
+    st = dict(prev)
+    k, m, comps = prev["k"], prev["m"], prev["comps"]
+    if label in ("R", "all"):
+        st.update(gen_noise(rng, s, k, m, 1, equal))
+    if label in ("h", "all"):
+        st.update(gen_h(rng, m, n))
+    if label in ("prior", "all"):
+        st.update(gen_prior(rng, n, comps))
+    if label == "comps":
+        st.update(gen_prior(rng, n, rng.choice([x for x in (1, 2, 3) if x != comps])))
+    if label in ("y", "all"):
+        st["y"] = gen_y(rng, st)
+    if label == "size":
+        k2 = rng.choice([x for x in (1, 2, 3, 4) if x != k or not prev["mult"]])
+        st.update({"k": k2, "m": k2 * s, "mult": 1})
+        st.update(gen_h(rng, k2 * s, n)); st.update(gen_noise(rng, s, k2, k2 * s, 1, equal)); st["y"] = gen_y(rng, st)
+    if label == "mismatch":
+        m2 = k * s + rng.randint(1, s - 1)
+        st.update({"m": m2, "mult": 0})
+        st.update(gen_h(rng, m2, n)); st.update(gen_noise(rng, s, k, m2, 0, equal)); st["y"] = gen_y(rng, st)
+    return st, label
+
+
 def generate(rng, tier):
     cases = []
-    for idx in range(COUNTS[tier]):
+    nsingle, nseq = COUNTS[tier]
+    for idx in range(nsingle):
         n = rng.randint(1, 5); s = rng.randint(1, 3); k = rng.randint(1, 4); comps = rng.randint(1, 3)
-        kind = rng.choice([0, 1, 2])
         mult = 1
         if rng.random() < 0.15:
             s = rng.randint(2, 3); mult = 0
-            m = k * s + rng.randint(1, s - 1)
-        else:
-            m = k * s
         alpha, beta, kappa, wc0, cc = ut_params(rng, n)
         negwc = 0
         if mult and rng.random() < 0.03:
@@ -100,53 +193,69 @@ def generate(rng, tier):
             # kept as a correspondence-only case (model and implementation must agree on the NaN pattern)
             alpha, beta, kappa = rng.uniform(0.05, 0.3), 0.0, 0.0
             cc = alpha * alpha * n; wc0 = (cc - n) / cc + 1 - alpha * alpha; negwc = 1
-        H = gen.matrix(rng, m, n); G = gen.matrix(rng, m, n, 0.5); G2 = gen.matrix(rng, m, n, 0.5)
-        b = gen.matrix(rng, m, 1); g = gen.matrix(rng, m, 1)
-        means = gen.matrix(rng, n, 1, 2.0) + gen.matrix(rng, n, comps, rng.choice([0.1, 0.3, 1.0]))
-        covs, cond, rankdef = [], 1.0, 0
-        for i in range(comps):
-            if n >= 2 and rng.random() < 0.1:
-                P = gen.psd(rng, n, n - 1, 10 ** rng.uniform(0, 2)); rankdef = 1
-                cP = 1.0
-            else:
-                P, cP = gen.spd(rng, n, 10 ** rng.uniform(0, 4), lo=10 ** rng.uniform(-2, 0))
-            covs.append(P); cond = max(cond, cP)
-        equal = 1 if (rng.random() < 0.5 or mult == 0) else 0
-        condR = 1.0
-        if mult:
-            if equal:
-                B, cB = gen.spd(rng, s, 10 ** rng.uniform(0, 3), lo=10 ** rng.uniform(-2, 0))
-                blocks = [B] * k; condR = cB
-            else:
-                blocks = []
-                for j in range(k):
-                    B, cB = gen.spd(rng, s, 10 ** rng.uniform(0, 3), lo=10 ** rng.uniform(-2, 0))
-                    blocks.append(B)
-                if k == 1:
-                    equal = 1
-            Rfull = blockdiag(blocks)
-            condR = float(np.linalg.cond(Rfull))
-        else:
-            B, cB = gen.spd(rng, s, 10 ** rng.uniform(0, 3))
-            blocks = [B]
-            Rfull, condR = gen.spd(rng, m, 10 ** rng.uniform(0, 3))
-        y = h_eval(kind, H, G, G2, b, g, means[:, [0]]) + gen.matrix(rng, m, 1, 0.7)
-        w = np.array([rng.random() + 0.1 for _ in range(comps)]); w = w / w.sum()
-        c = caseio.Case(idx, "sukf", {"n": n, "m": m, "s": s, "k": k, "comps": comps, "hkind": kind, "mult": mult,
-                                      "equal": equal, "rankdef": rankdef, "negwc": negwc, "cond": "%.3g" % max(cond, condR),
-                                      "wc0": "%.3g" % wc0})
-        c.mat("H", H).mat("G", G).mat("G2", G2).mat("b", b).mat("g", g).mat("y", y)
-        c.mat("Rfull", Rfull)
-        if equal:
-            c.mat("Rblock", blocks[0])
-        c.mat("params", np.array([[alpha, beta, kappa]]))
-        c.mat("means", means).mat("covs", np.hstack(covs)).mat("weights", w.reshape(-1, 1))
-        c.int("s", s).int("hkind", kind)
+        equal = 1 if (rng.random() < 0.5 or mult == 0 or k == 1) else 0
+        st = gen_step(rng, n, s, k, comps, mult, equal)
+        c = caseio.Case(idx, "sukf", {"n": n, "m": st["m"], "s": s, "k": k, "comps": comps, "hkind": st["hkind"], "mult": mult,
+                                      "equal": equal, "rankdef": st["rankdef"], "negwc": negwc,
+                                      "cond": "%.3g" % max(st["condP"], st["condR"]), "wc0": "%.3g" % wc0})
+        put_step(c, st, "", equal)
+        c.mat("params", np.array([[alpha, beta, kappa]])).int("s", s)
+        cases.append(c)
+    # sequences: the same SUKFCorrection / UKFCorrection objects driven through several correct() calls while the
+    # measurement model's outputs (R, y, h), the predicted belief and the sizes change between the calls
+    for idx in range(nseq):
+        n = rng.randint(1, 4); s = rng.randint(1, 3); k = rng.randint(1, 4); comps = rng.randint(1, 3)
+        T = rng.randint(2, 4)
+        alpha, beta, kappa, wc0, cc = ut_params(rng, n)
+        equal = 1 if rng.random() < 0.5 else 0
+        steps, labels = [gen_step(rng, n, s, k, comps, 1, equal)], ["first"]
+        for t in range(1, T):
+            st, lab = next_step(rng, steps[-1], n, s, equal)
+            steps.append(st); labels.append(lab)
+        meta = {"n": n, "s": s, "steps": T, "equal": equal, "negwc": 0, "wc0": "%.3g" % wc0, "labels": "/".join(labels)}
+        for t, (st, lab) in enumerate(zip(steps, labels), 1):
+            meta.update({"m_%d" % t: st["m"], "k_%d" % t: st["k"], "comps_%d" % t: st["comps"], "hkind_%d" % t: st["hkind"],
+                         "mult_%d" % t: st["mult"], "rankdef_%d" % t: st["rankdef"],
+                         "cond_%d" % t: "%.3g" % max(st["condP"], st["condR"]), "lbl_%d" % t: lab})
+        c = caseio.Case("q%d" % idx, "sukf_seq", meta)
+        for t, st in enumerate(steps, 1):
+            put_step(c, st, "_%d" % t, equal)
+        c.mat("params", np.array([[alpha, beta, kappa]])).int("s", s).int("steps", T)
         cases.append(c)
     return cases
 
 
+def step_view(c, t):
+    """call t of a sequence case as a single case (operands without the suffix, that call's meta)"""
+    suf = "_%d" % t
+    meta = {k: c.meta[k] for k in ("n", "s", "equal", "negwc", "wc0")}
+    for k in ("m", "k", "comps", "hkind", "mult", "rankdef", "cond"):
+        meta[k] = c.meta["%s_%d" % (k, t)]
+    meta["second"] = 0
+    v = caseio.Case(c.id, "sukf", meta)
+    for tag, name, val in c.ops:
+        if name.endswith(suf):
+            v.ops.append((tag, name[:-len(suf)], val))
+        elif name in ("params", "s"):
+            v.ops.append((tag, name, val))
+    return v
+
+
+def rec_view(rec, t):
+    if rec is None:
+        return None
+    tp = "t%d_" % t
+    r = caseio.Record(rec.id, "")
+    for name, tv in rec.vals.items():
+        if name.startswith(tp):
+            r.vals[name[len(tp):]] = tv
+    return r
+
+
 def nontrivial(c):
+    if c.kind == "sukf_seq":
+        return ("seq", int(c.meta["n"]), int(c.meta["s"]), str(c.meta["labels"]), str(c.meta["equal"]),
+                tuple(int(c.meta["k_%d" % t]) for t in range(1, int(c.meta["steps"]) + 1)))
     n, s, k, comps = int(c.meta["n"]), int(c.meta["s"]), int(c.meta["k"]), int(c.meta["comps"])
     kind, mult = int(c.meta["hkind"]), int(c.meta["mult"])
     if k >= 2 or comps >= 2 or kind != 0 or mult == 0:
@@ -203,14 +312,46 @@ def pscale(c):
     return max(1.0, float(np.max(np.abs(c.get("covs")))), float(np.max(np.abs(c.get("means")))))
 
 
+CHANGED = {"first": "first-call", "same": "nothing-changed", "mismatch": "size-mismatch"}
+
+
+def step_label(c, t):
+    lab = str(c.meta["lbl_%d" % t])
+    return "step=%d:%s" % (t, CHANGED.get(lab, lab + "-changed"))
+
+
 def compare(c, impl, model):
+    """Sequence cases: the model is stateless, so call t of the implementation's objects is compared with the model run on
+    call t's inputs alone; any difference is state leaking from an earlier call."""
+    if c.kind != "sukf_seq":
+        return compare_single(c, impl, model)
+    d = caseio.compare_fields(impl, model, ["wm", "wc", "c"], atol=1e-15, rtol=1e-14)
+    for t in range(1, int(c.meta["steps"]) + 1):
+        d += ["%s: %s" % (step_label(c, t), x) for x in compare_single(step_view(c, t), rec_view(impl, t), rec_view(model, t), top=False)]
+    return d
+
+
+def oracle(c, impl, model):
+    if c.kind != "sukf_seq":
+        return oracle_single(c, impl, model)
+    v = []
+    for t in range(1, int(c.meta["steps"]) + 1):
+        v += [("%s:%s" % (sig, step_label(c, t)), detail) for sig, detail in oracle_single(step_view(c, t), rec_view(impl, t), rec_view(model, t))]
+    return v
+
+
+def has_second(c):
+    return str(c.meta.get("second", "1")) == "1" and int(c.meta["mult"]) and int(c.meta["s"]) >= 2
+
+
+def compare_single(c, impl, model, top=True):
     cond = case_cond(c, model)
     comps = int(c.meta["comps"])
-    d = caseio.compare_fields(impl, model, ["wm", "wc", "c"], atol=1e-15, rtol=1e-14)
+    d = caseio.compare_fields(impl, model, ["wm", "wc", "c"], atol=1e-15, rtol=1e-14) if top else []
     fields, liks = [], []
     for pre in prefixes(c):
         fields += [pre + "components", pre + "lik_valid", pre + "weights"]
-        if int(c.meta["mult"]) and int(c.meta["s"]) >= 2:
+        if has_second(c):
             fields += [pre + "2_lik_valid", pre + "2_out_equals_pred"]
         for i in range(comps):
             fields += [pre + "mean%d" % i, pre + "cov%d" % i]
@@ -232,8 +373,8 @@ def compare(c, impl, model):
     return d
 
 
-def oracle(c, impl, model):
-    """The property clauses evaluated on the implementation's output."""
+def oracle_single(c, impl, model):
+    """The property clauses evaluated on the implementation's output (one correct() call)."""
     v = []
     n, comps, mult = int(c.meta["n"]), int(c.meta["comps"]), int(c.meta["mult"])
     cond = case_cond(c, model)
@@ -260,7 +401,7 @@ def oracle(c, impl, model):
         if impl.get(pre + "components") != comps or impl.get(pre + "dim") != n:
             v.append(("C05:shape:%s" % flag, "components/dim %s/%s for %d/%d" % (impl.get(pre + "components"), impl.get(pre + "dim"), comps, n)))
             continue
-        if int(c.meta["s"]) >= 2:
+        if has_second(c):
             # second step on the same object, measurement size m+1: identity, and the first step's likelihood must not survive
             if impl.get(pre + "2_out_equals_pred") != 1:
                 v.append(("C05:size-mismatch-not-identity:second-step:%s" % flag, "second step with meas=%d sub=%s: output differs from the predicted belief" % (int(c.meta["m"]) + 1, c.meta["s"])))
@@ -295,16 +436,24 @@ def oracle(c, impl, model):
 
 
 def histogram(cases):
-    def count(f):
+    single = [c for c in cases if c.kind != "sukf_seq"]
+    seqs = [c for c in cases if c.kind == "sukf_seq"]
+
+    def count(f, cs=single):
         d = {}
-        for c in cases:
+        for c in cs:
             d[str(f(c))] = d.get(str(f(c)), 0) + 1
         return d
+    changes = {}
+    for c in seqs:
+        for t in range(2, int(c.meta["steps"]) + 1):
+            lab = str(c.meta["lbl_%d" % t]); changes[lab] = changes.get(lab, 0) + 1
     return {"h_kind": count(lambda c: c.meta["hkind"]), "blocks_k": count(lambda c: c.meta["k"]),
             "sub_size": count(lambda c: c.meta["s"]), "state_n": count(lambda c: c.meta["n"]),
             "components": count(lambda c: c.meta["comps"]), "multiple": count(lambda c: c.meta["mult"]), "negative_wc0_out_of_scope": count(lambda c: c.meta.get("negwc", "0")),
             "equal_blocks": count(lambda c: c.meta["equal"]), "rank_deficient_P": count(lambda c: c.meta["rankdef"]),
             "cond_decade": count(lambda c: gen.decade(float(c.meta["cond"]))),
+            "sequence_cases": len(seqs), "sequence_calls": count(lambda c: c.meta["steps"], seqs), "sequence_change_between_calls": changes,
             "likelihood_comparisons_excluded_ill_conditioned": EXCLUDED["likelihood_ill_conditioned"]}
 
 
@@ -317,4 +466,4 @@ LEVEL_TEXT = ("Proof: the model of SUKFCorrection::correctStep / getLikelihood (
               "(SUKFCorrection both constructors, UKFCorrection) on the same generated cases.")
 LEVEL_NOTE = ("Trusted: Coq kernel, MathComp, extraction + float driver, list instance of the matrix interface, harness and tolerances; rounding is not "
               "modelled; the SVD square root and std::sqrt enter through their contracts (checked at run time); scope is linear layouts; "
-              "the tie to the code is sampled (300 quick / 10000 thorough cases).")
+              "the tie to the code is sampled (300 single-call + 120 sequence cases quick / 10000 + 4000 thorough).")
